@@ -52,8 +52,8 @@ def _scalar(tname, v):
     return _SCALAR_CTOR[tname](v)
 
 
-VA = [3.0, -5.0, 7.0, -9.0, 11.0, -13.0]
-VB = [3.0, 5.0, -14.0, -9.0, 22.0, 13.0]   # equal to VA at cells 0 and 3, exactly cancelling at cells 1 and 5, different elsewhere
+VA = [3.0, -5.0, 7.0, -9.0, 11.0, -13.0, 15.0, -17.0]
+VB = [3.0, 5.0, -14.0, -9.0, 22.0, 13.0, 15.0, 17.0]   # equal to VA at cells 0 and 3, exactly cancelling at cells 1 and 5, different elsewhere
 
 
 def _sets(ncells, kmax):
@@ -64,6 +64,10 @@ def _sets(ncells, kmax):
 
 
 def gen_cases(tier, seed):
+    # a mode of size 4 next to another mode (unary operations only): a sparse VECTOR result (at most half of the mode
+    # stored) can then hold two entries
+    for sa in _sets(8, 3 if tier == "thorough" else 2):
+        yield {"check": "unary", "shape": [4, 2], "A": list(sa)}
     shapes = [((2, 2), 3), ((4,), 3), ((2, 1, 2), 3)]
     if tier == "thorough":
         shapes += [((2, 3), 4), ((3, 2), 4), ((1, 2, 3), 4)]
